@@ -208,6 +208,10 @@ class AsyncFIXConnection:
                     # Only add message if logout_message != ""
                     msg[FTag.Text] = logout_message
                 await self.send_msg(msg)
+                if self._connection_state <= ConnectionState.DISCONNECTED_BROKEN_CONN:
+                    # disconnected meanwhile (i.e. peer closed the socket while Logout
+                    #   was waiting in drain), already reported by on_disconnect()
+                    return
 
             self.log.info(f"Client disconnected, with state: {repr(disconn_state)}")
             if self._socket_writer:
